@@ -70,6 +70,18 @@ EXPECT.append({"src": "func g() { for { func() { break }(); return 1 }; return 2
 EXPECT.append({"src": "func skip(x) { if x % 2 == 0 { continue } }\nsum = 0\ntry { for x in [1, 2, 3, 4] { skip(x); sum += x } } catch e { sum = \"E\" }\nsum", "field": "result", "want": "s:45",
                "why": "a continue in a helper function does not continue the caller's loop"})
 
+# return ends the function from inside any block - a module block is a block like the others
+for _src, _want, _why in (
+        ("func f() { for i in [1, 2, 3] { module m { if i == 2 { return i * 10 } } }; return 3 }\nf()", "i:20", "return inside a module block inside a loop"),
+        ("func f() { module m { return 1 }; return 2 }\nf()", "i:1", "return at the top of a module block"),
+        ("func f() { module m { x = 1; if x == 1 { return \"in\" } }; return \"after\" }\nf()", "s:696e", "return inside an if inside a module block"),
+        ("func f() { module m { return 1, 2 }; return 3 }\nf()", "[i:1,i:2]", "a return of several values out of a module block"),
+        ("func f() { module m { return }; return 3 }\nf()", "nil", "a bare return out of a module block"),
+        ("r = 0\nfunc f() { module m { module n { return 5 } }; r = 1; return 6 }\n[f(), r]", "[i:5,i:0]", "return out of two nested module blocks: nothing after them runs"),
+        ("r = []\nfor i in [1, 2, 3] { module m { if i == 2 { break } }; r += i }\nr", "[i:1]", "break inside a module block inside a loop leaves the loop"),
+        ("r = []\nfor i in [1, 2, 3] { module m { if i == 2 { continue } }; r += i }\nr", "[i:1,i:3]", "continue inside a module block inside a loop")):
+    EXPECT.append({"src": _src, "field": "result", "want": _want, "why": _why})
+
 
 def product():
     out = []
